@@ -354,3 +354,21 @@ def cleanup_run_dirs():
     import glob
     for d in glob.glob(os.path.join(BUILD, "ws", "kani-*", "goto", "%d-*" % os.getpid())):
         shutil.rmtree(d, ignore_errors=True)
+
+_FID = {}
+def fidelity_gate():
+    """Differential test of the model Felt's exact kernels against the real crate (once per run)."""
+    if "ok" in _FID:
+        return _FID["ok"], _FID["msg"]
+    d = os.path.join(VERIF, "tools", "fidelity")
+    env = base_env()
+    env["RUSTUP_TOOLCHAIN"] = "1.82.0"
+    env["VERIF_SEED"] = str(seed())
+    lock = os.path.join(d, "Cargo.lock")
+    if not os.path.exists(lock):
+        shutil.copy(os.path.join(repo_path(), "Cargo.lock"), lock)
+    rc, out, _ = sh(["cargo", "run", "--offline", "--target-dir", os.path.join(BUILD, "fidelity")], cwd=d, env=env, timeout=1200)
+    line = [l for l in out.splitlines() if l.startswith("fidelity:")]
+    _FID["ok"] = (rc == 0)
+    _FID["msg"] = line[-1] if line else out[-800:]
+    return _FID["ok"], _FID["msg"]
